@@ -174,6 +174,84 @@ def check_conversions(ctx, res, adj, chain):
         res.violation(f"convert:raises:{err_class(e)}", f"convert_representation raised {err_class(e)} along {inp['chain']}: {str(e)[:100]}", input=inp)
 
 
+def check_walk(ctx, res, adj0, steps):
+    """conversion walk interleaved with in-place evolution: the state object is converted, evolved in place by a CZ (which keeps it a
+    graph state and toggles one edge), converted again, … — after every conversion the held state must be the current graph state.
+    The graph object is built with a scrambled node insertion order (all conversions must agree on which node is which qubit)."""
+    import networkx as nx
+    from graphiq.state import QuantumState
+
+    rng = ctx.rng
+    n = adj0.shape[0]
+    adj = adj0.copy()
+    g = nx.from_numpy_array(adj)
+    hist = ["g"]
+    inp = {"adjacency": tu.bits(adj0), "n": n}
+    res.evaluations += 1
+    try:
+        qs = QuantumState(g, rep_type="g")
+        for _ in range(steps):
+            rep = rng.choice(["g", "s", "dm"])
+            qs.convert_representation(rep)
+            hist.append(rep)
+            if n >= 2 and rep in ("s", "dm") and rng.random() < 0.6:
+                a, b = rng.sample(range(n), 2)
+                if rep == "s":
+                    qs.rep_data.apply_cz(control=a, target=b)
+                else:
+                    qs.rep_data.apply_unitary(tu.cz_matrix(n, a, b))
+                adj[a, b] ^= 1
+                adj[b, a] ^= 1
+                hist.append(f"cz{a}{b}")
+            cur = qs.copy()
+            if rep != "dm":
+                cur.convert_representation("dm")
+            if not np.allclose(np.asarray(cur.rep_data.data), dense_graph_state(adj), atol=1e-8):
+                inp["history"] = "->".join(hist)
+                res.violation("convert:walk:state-changed", "after a history of conversions and in-place CZ gates the held state is not the current graph state", input=inp)
+                return
+        res.branch(["walk"])
+        res.traces_validated += 1
+    except Exception as e:  # noqa: BLE001
+        inp["history"] = "->".join(hist)
+        res.violation(f"convert:walk:raises:{err_class(e)}", f"conversion walk raised {err_class(e)}: {str(e)[:100]}", input=inp)
+
+
+def check_node_order(ctx, res, adj):
+    """a graph whose node insertion order differs from the sorted order of its labels: graph->dm and graph->stabilizer->dm must be
+    the same state (which node is which qubit must not depend on the path)"""
+    import networkx as nx
+    from graphiq.state import QuantumState
+
+    n = adj.shape[0]
+    order = ctx.rng.sample(range(n), n)
+    g = nx.Graph()
+    g.add_nodes_from(order)
+    g.add_edges_from((u, v) for u in range(n) for v in range(u + 1, n) if adj[u, v])
+    inp = {"adjacency": tu.bits(adj), "n": n, "node_insertion_order": order}
+    res.evaluations += 1
+    try:
+        outs = {}
+        for chain in (["dm"], ["s", "dm"], ["s", "g", "dm"], ["dm", "g", "s", "dm"]):
+            qs = QuantumState(g.copy(), rep_type="g")
+            for rep in chain:
+                qs.convert_representation(rep)
+            outs["->".join(chain)] = np.asarray(qs.rep_data.data)
+        ref = outs["dm"]
+        for k, v in outs.items():
+            if not np.allclose(v, ref, atol=1e-8):
+                res.violation("convert:node-order:path-dependent", f"g->{k} gives a different state than g->dm for a graph with scrambled node insertion order", input=inp)
+                return
+        # and the state is the graph state of the graph with qubit k = k-th node in insertion order
+        perm_adj = nx.to_numpy_array(g, nodelist=list(g.nodes())).astype(int)
+        if not np.allclose(ref, dense_graph_state(perm_adj), atol=1e-8):
+            res.violation("convert:node-order:not-graph-state", "graph->density of a graph with scrambled node insertion order is not its graph state (qubit k = k-th node)", input=inp)
+            return
+        res.traces_validated += 1
+    except Exception as e:  # noqa: BLE001
+        res.violation(f"convert:node-order:raises:{err_class(e)}", f"conversion raised {err_class(e)}: {str(e)[:100]}", input=inp)
+
+
 D40_WITNESS = "n=1 x=0 z=1 r=0"
 
 
@@ -224,6 +302,15 @@ def run(ctx, budget=1.0):
     for adj in graphs:
         for chain in (chains if adj.shape[0] <= 3 else rng.sample(chains, 6)):
             check_conversions(ctx, res, adj, chain)
+    for adj in graphs:
+        if adj.shape[0] >= 2:
+            check_walk(ctx, res, adj, 6)
+            check_node_order(ctx, res, adj)
+    for _ in range(int((30 if ctx.quick else 300) * budget)):
+        n = rng.randrange(3, 6)
+        adj = nx.to_numpy_array(nx.gnp_random_graph(n, rng.uniform(0.2, 0.8), seed=rng.getrandbits(30))).astype(int)
+        check_walk(ctx, res, adj, 10)
+        check_node_order(ctx, res, adj)
     res.exhaustive = True
     res.notes.append(f"exhaustive over all graphs on <= {nmax} vertices; all 9 ordered representation pairs and all length-3 chains on all graphs n<=3")
     res.extra["driver_lines"] = drv.n_lines
